@@ -243,5 +243,15 @@ PROPS['C15'] = dict(
   outside=['text round trip through operator<< / operator>> (libstdc++ iostream/locale is machine code)', 'independent objects used from different threads (the engine is sequential)', 'uninitialised-value tracking (not implemented in the engine)'],
   units=_u15)
 
+# ------------------------------------------------------------------------------------------------ C02
+PROPS['C02'] = dict(
+  explanation='Bounded symbolic execution of the real Persistent_cohomology<Simplex_tree, Field_Zp> (annotation matrix, union-find, Field_Zp tables; clang IR of the headers in /repo): the shape, the monotone filtration values (with ties), min_interval_length and the persistence_dim_max flag are solver variables, the prime is concrete per unit; on every path the multiset of (dimension, birth, death), betti_number(s), persistent_betti_number and intervals_in_dimension are compared with a signed dense boundary-matrix reduction over Z_p performed in the harness on the order filtration_simplex_range exposes.',
+  bounds=dict(quick='all face-closed complexes on 3 vertices with values 0..2 for p in {2,3,5,7}; on 4 vertices with values 0..1 for p=2,3; the 6-vertex projective plane (torsion) for p=2 and p=3', thorough='4 vertices with values 0..2, p=11 and p=46337 on 3 vertices'),
+  outside=['multi-field mode (Multi_field uses GMP: libgmp is machine code and cannot be encoded)', 'Hasse_complex and cubical inputs (the same engine object; cubical incidences are checked under C13)', 'complexes beyond the bounds'],
+  units=[U('coh_n3_p%d' % p, 'C02_cohomology.cpp', ['VP_N=3', 'VP_P=%d' % p, 'VP_VMAX=2'], weight=5) for p in (2, 3, 5, 7)]
+      + [U('coh_n4_p%d' % p, 'C02_cohomology.cpp', ['VP_N=4', 'VP_P=%d' % p, 'VP_VMAX=1'], weight=15, jobs=8) for p in (2, 3)]
+      + [U('coh_rp2_p%d' % p, 'C02_cohomology.cpp', ['VP_N=6', 'VP_P=%d' % p, 'VP_VMAX=2', 'VP_RP2'], weight=6) for p in (2, 3)]
+      + [U('coh_n4_v2_p3', 'C02_cohomology.cpp', ['VP_N=4', 'VP_P=3', 'VP_VMAX=2'], tiers=['thorough'], weight=40), U('coh_n3_p11', 'C02_cohomology.cpp', ['VP_N=3', 'VP_P=11', 'VP_VMAX=2'], tiers=['thorough'], weight=10), U('coh_n3_p46337', 'C02_cohomology.cpp', ['VP_N=3', 'VP_P=46337', 'VP_VMAX=1'], tiers=['thorough'], weight=40)])
+
 NOT_APPLICABLE = {}
 NOTES = 'Clauses outside every claim: real thread schedules/TBB execution (engine is sequential), iostream text I/O, GMP arbitrary precision, Eigen-based Coxeter point location under general affine maps, SIMD paths of boost::unordered_flat_map (compiled with -U__SSE2__), allocation failure, inputs beyond the stated bounds.'
